@@ -49,12 +49,18 @@ FAMILIES = [  # name, registry keys
     ('respadapt', ['A:IResponse']),
     ('traverser', ['A:ITraverser']),
     ('resurl', ['A:IResourceURL']),
+    # membership of an ordered container whose position is fixed by explicit constraints (weighs_more_than /
+    # weighs_less_than, under / over): the TopologicalSorter is sorted by its READERS only, so such writes commute
+    ('predsc', []),
+    ('deriversc', []),
+    ('tweensc', []),
+    ('acceptc', []),
 ]
 FAM = {n: i + 1 for i, (n, _) in enumerate(FAMILIES)}
 FAM_OF_REGKEY = {rk: n for n, rks in FAMILIES for rk in rks}
 MODE = {'set': 0, 'seq': 1, 'acc': 2}
 
-_VIEW_READS = ['riface', 'renderer', 'defperm', 'policy', 'csrfopts', 'mapper', 'derivers', 'accept']
+_VIEW_READS = ['riface', 'renderer', 'defperm', 'policy', 'csrfopts', 'mapper', 'derivers', 'deriversc', 'accept', 'acceptc']
 
 
 GUARDS = {'set_authentication_policy#0': ['policy']}
@@ -65,7 +71,7 @@ def R(disc=(), reads=(), writes=(), decl=()):
 
 
 DECLARED = {
-    'add_subscriber#0': R(reads=['preds'], writes=[('subs', 'seq')]),
+    'add_subscriber#0': R(reads=['preds', 'predsc'], writes=[('subs', 'seq')]),
     'add_response_adapter#0': R(writes=[('respadapt', 'set')]),
     'add_traverser#0': R(writes=[('traverser', 'set')]),
     'add_resource_url_adapter#0': R(writes=[('resurl', 'set')]),
@@ -80,9 +86,9 @@ DECLARED = {
     'set_execution_policy#0': R(writes=[('execpol', 'set')]),
     'set_locale_negotiator#0': R(writes=[('locale', 'set')]),
     'add_translation_dirs#0': R(writes=[('transdirs', 'seq')]),
-    '_add_predicate#0': R(writes=[('preds', 'seq')]),
+    '_add_predicate#0': R(writes=[('preds', 'seq'), ('predsc', 'acc')]),
     'add_renderer#0': R(writes=[('renderer', 'set')]),
-    'add_route#0': R(reads=['preds'], writes=[('routes', 'seq')], decl=['routes']),
+    'add_route#0': R(reads=['preds', 'predsc'], writes=[('routes', 'seq')], decl=['routes']),
     'add_route#1': R(writes=[('riface', 'set')]),
     'set_security_policy#0': R(writes=[('policy', 'set')]),
     # legacy API.  Its callable also reads ISecurityPolicy -- a key of its OWN phase -- only to refuse the
@@ -96,10 +102,10 @@ DECLARED = {
     'add_permission#0': R(),
     'set_default_csrf_options#0': R(writes=[('csrfopts', 'set')]),
     'set_csrf_storage_policy#0': R(writes=[('csrfstore', 'set')]),
-    '_add_tween#0': R(writes=[('tweens', 'seq')], decl=['tweens']),
-    'add_view#0': R(disc=['preds', 'derivers'], reads=_VIEW_READS, writes=[('view', 'acc')]),
-    'add_accept_view_order#0': R(writes=[('accept', 'seq')]),
-    'add_view_deriver#0': R(writes=[('derivers', 'seq')]),
+    '_add_tween#0': R(writes=[('tweens', 'seq'), ('tweensc', 'acc')], decl=['tweens']),
+    'add_view#0': R(disc=['preds', 'predsc', 'derivers', 'deriversc'], reads=_VIEW_READS, writes=[('view', 'acc')]),
+    'add_accept_view_order#0': R(writes=[('accept', 'seq'), ('acceptc', 'acc')]),
+    'add_view_deriver#0': R(writes=[('derivers', 'seq'), ('deriversc', 'acc')]),
     'set_view_mapper#0': R(writes=[('mapper', 'set')]),
     'add#0': R(writes=[('static', 'seq')], decl=['static', 'routes']),
     'add_cache_buster#0': R(writes=[('static', 'seq')], decl=['static']),
